@@ -13,6 +13,7 @@ import (
 	"time"
 
 	"github.com/cloudwego/eino/callbacks"
+	"github.com/cloudwego/eino/components/tool"
 	"github.com/cloudwego/eino/compose"
 	"github.com/cloudwego/eino/schema"
 
@@ -87,6 +88,12 @@ func (g *genState) stages(depth int, path []int, sub bool) [][]*GNode {
 					t.Calls = append(t.Calls, &GCall{UID: g.uid, Natives: r.Range(1, 3), Fails: r.Chance(1, 12),
 						DelayUs: r.Intn(300), Chunks: r.Range(1, 3)})
 				}
+				// a call of a tool the node does not have (answered by the UnknownToolsHandler); the tool
+				// list handed over at call time instead of at construction
+				if r.Chance(1, 4) {
+					t.Calls[r.Intn(len(t.Calls))].Unknown = true
+				}
+				t.ToolList = r.Chance(1, 4)
 				if g.store && r.Chance(1, 3) {
 					// a tool call asks for an interrupt: the ToolsNode is executed again as a whole
 					t.Calls[r.Intn(len(t.Calls))].Intr = 1
@@ -269,6 +276,29 @@ func genGraph(r *lib.Rng, tier string) *Case {
 	return c
 }
 
+// callerSlice is a handler slice the harness (as the caller) handed to eino, with spare capacity.
+type callerSlice struct {
+	sl  []callbacks.Handler
+	ids []int
+}
+
+// changed says what eino did to the caller's array ("" = nothing): an element replaced, or a
+// handler written into the spare capacity behind the slice.
+func (cs callerSlice) changed() string {
+	for i, id := range cs.ids {
+		if got := handlerID(cs.sl[i]); got != id {
+			return fmt.Sprintf("was overwritten: element %d is handler %d", i, got)
+		}
+	}
+	full := cs.sl[:cap(cs.sl)]
+	for i := len(cs.sl); i < len(full); i++ {
+		if full[i] != nil {
+			return fmt.Sprintf("was appended to in place: handler %d stands in its spare capacity (position %d)", handlerID(full[i]), i)
+		}
+	}
+	return ""
+}
+
 // optsFor: the call options of the k-th run of the sequence
 func (c *Case) optsFor(k int) []GOpt {
 	if k > 0 && c.HasOpts2 {
@@ -302,15 +332,16 @@ type bodyRec struct {
 }
 
 type runRec struct {
-	eager  bool // every graph level is a Workflow
-	mu     sync.Mutex
-	execs  map[int][]bodyRec // executions in the current run of a run sequence
-	shared map[int]int
-	count  map[int]int // executions of a unit over the whole run sequence (decides interrupts)
+	eager     bool // every graph level is a Workflow
+	mu        sync.Mutex
+	execs     map[int][]bodyRec // executions in the current run of a run sequence
+	shared    map[int]int
+	count     map[int]int             // executions of a unit over the whole run sequence (decides interrupts)
+	toolLists map[int][]tool.BaseTool // ToolsNode uid -> the tool list the case passes as a call option
 }
 
 func newRunRec() *runRec {
-	return &runRec{execs: map[int][]bodyRec{}, shared: map[int]int{}, count: map[int]int{}}
+	return &runRec{execs: map[int][]bodyRec{}, shared: map[int]int{}, count: map[int]int{}, toolLists: map[int][]tool.BaseTool{}}
 }
 
 // nextRun forgets the per-run execution records (the counters that decide interrupts stay).
@@ -1123,7 +1154,7 @@ func unitTimings(c *Case, x *expectation, uid int) (int, int) {
 	case "tools":
 		p = pickNative(isStream, 3)
 	case "call":
-		p = pickNative(isStream, x.calls[uid].Natives&3)
+		p = pickNative(isStream, x.calls[uid].nat())
 	}
 	st, en := 0, 1
 	if p == 2 || p == 3 {
@@ -1188,6 +1219,7 @@ func runGraph(c *Case) lib.Result {
 	}
 	var runs []oneRun
 	var baseline []string
+	var callerSlices []callerSlice
 	class, detail := watchdog(60*time.Second, func() {
 		// an eager run leaves tasks behind; they are over when the number of goroutines is back
 		// to what it was (the process-wide handler list must not be touched before that)
@@ -1226,7 +1258,7 @@ func runGraph(c *Case) lib.Result {
 		ps0 := newPlan(c)
 		for k := 0; k < maxRuns; k++ {
 			r0.nextRun()
-			r := call(run0, c.Paradigm, c.InChunks, cpOpt...)
+			r := call(run0, c.Paradigm, c.InChunks, append(append([]compose.Option{}, cpOpt...), r0.toolListOpts(c.Stages, nil)...)...)
 			baseline = append(baseline, r)
 			if c.Eager {
 				// the tasks an eager run left behind must not meet the handlers of the next run
@@ -1256,10 +1288,21 @@ func runGraph(c *Case) lib.Result {
 		}
 		installGlobals(c, hs)
 		defer callbacks.InitCallbackHandlers(nil)
-		mkCallOpts := func(gopts []GOpt) []compose.Option {
+		// the handler slice of every option has spare capacity (a caller that collected its handlers
+		// with append), and the options of a call are built once and passed to every run of the
+		// sequence that uses them: nothing may be written into the caller's arrays
+		built := map[int][]compose.Option{}
+		mkCallOpts := func(which int, gopts []GOpt) []compose.Option {
+			if o, ok := built[which]; ok {
+				return append([]compose.Option{}, o...)
+			}
 			opts := append([]compose.Option{}, cpOpt...)
-			for _, o := range gopts {
-				op := compose.WithCallbacks(toH(o.Hs)...)
+			for i, o := range gopts {
+				spare := int(((c.Seed >> 8) + uint64(i)) % 3)
+				hsl := make([]callbacks.Handler, len(o.Hs), len(o.Hs)+spare)
+				copy(hsl, toH(o.Hs))
+				callerSlices = append(callerSlices, callerSlice{hsl, o.Hs})
+				op := compose.WithCallbacks(hsl...)
 				if len(o.Paths) > 0 {
 					var ps []*compose.NodePath
 					allSingle := true
@@ -1285,12 +1328,18 @@ func runGraph(c *Case) lib.Result {
 				}
 				opts = append(opts, op)
 			}
-			return opts
+			opts = append(opts, rr.toolListOpts(c.Stages, nil)...)
+			built[which] = opts
+			return append([]compose.Option{}, opts...)
 		}
 		ps := newPlan(c)
 		for k := 0; k < maxRuns; k++ {
 			rr.nextRun()
-			result := call(run1, c.Paradigm, c.InChunks, mkCallOpts(c.optsFor(k))...)
+			which := 0
+			if k > 0 && c.HasOpts2 {
+				which = 1
+			}
+			result := call(run1, c.Paradigm, c.InChunks, mkCallOpts(which, c.optsFor(k))...)
 			if !waitPending(s, 10*time.Second) {
 				fail("graph-stream", "run %d: a handler's copy of a stream payload never ended", k)
 			}
@@ -1439,6 +1488,12 @@ func runGraph(c *Case) lib.Result {
 		nIntrRuns++
 		ps.advance(c.Stages, c.optsFor(k))
 	}
+	// the caller's own handler slices (the arguments of WithCallbacks) after all runs
+	for _, cs := range callerSlices {
+		if what := cs.changed(); what != "" {
+			fail("graph-caller-slice", "the handler slice the caller passed to WithCallbacks(%v...) %s", cs.ids, what)
+		}
+	}
 	if len(oracle) > 0 {
 		res.Oracle = strings.Join(oracle, " | ")
 		res.Sig = sig
@@ -1532,6 +1587,25 @@ func runGraph(c *Case) lib.Result {
 	}, 0)
 	if nTools > 0 {
 		res.Tags = append(res.Tags, "tools-node", fmt.Sprintf("tool-calls:%d", nCalls))
+		nUnk, nTL := 0, 0
+		allNodes(c.Stages, func(n *GNode, d int) {
+			if n.Kind == "tools" {
+				if n.ToolList {
+					nTL++
+				}
+				for _, cl := range n.Calls {
+					if cl.Unknown {
+						nUnk++
+					}
+				}
+			}
+		}, 0)
+		if nUnk > 0 {
+			res.Tags = append(res.Tags, "unknown-tool-call")
+		}
+		if nTL > 0 {
+			res.Tags = append(res.Tags, "tool-list-by-call-option")
+		}
 	}
 	if !optsOKDeep(c.Stages, c.Opts) {
 		res.Tags = append(res.Tags, "bad-designation")
@@ -1848,7 +1922,7 @@ func coqStages(stages [][]*GNode) string {
 			case "tools":
 				var cs []string
 				for _, c := range n.Calls {
-					cs = append(cs, fmt.Sprintf("(%d, %d, %d, %s)", c.UID, c.UID, c.Natives&3, lib.CoqBool(c.Fails)))
+					cs = append(cs, fmt.Sprintf("(%d, %d, %d, %s)", c.UID, c.UID, c.nat(), lib.CoqBool(c.Fails)))
 				}
 				ns = append(ns, fmt.Sprintf("GTools %d %d %d [%s]", n.UID, n.Key, n.UID, strings.Join(cs, "; ")))
 			}
@@ -1875,7 +1949,7 @@ func coqRStages(stages [][]*GNode) string {
 			case "tools":
 				var cs []string
 				for _, c := range n.Calls {
-					cs = append(cs, fmt.Sprintf("(%d, %d, %d, %s, %d%%nat)", c.UID, c.UID, c.Natives&3, lib.CoqBool(c.Fails), c.Intr))
+					cs = append(cs, fmt.Sprintf("(%d, %d, %d, %s, %d%%nat)", c.UID, c.UID, c.nat(), lib.CoqBool(c.Fails), c.Intr))
 				}
 				ns = append(ns, fmt.Sprintf("RTools %d %d %d [%s]", n.UID, n.Key, n.UID, strings.Join(cs, "; ")))
 			}
